@@ -25,6 +25,8 @@ using namespace IMATH_NAMESPACE;
     WRAP void w_q_slerp_shortest##S (const Quat<T>* a, const Quat<T>* b, T t, Quat<T>* r) { *r = slerpShortestArc (*a, *b, t); } \
     WRAP void w_q_slerp_t0##S (const Quat<T>* a, const Quat<T>* b, Quat<T>* r) { *r = slerp (*a, *b, T (0)); }              \
     WRAP void w_q_slerp_t1##S (const Quat<T>* a, const Quat<T>* b, Quat<T>* r) { *r = slerp (*a, *b, T (1)); }              \
+    WRAP void w_q_slerp_t2##S (const Quat<T>* a, const Quat<T>* b, Quat<T>* r) { *r = slerp (*a, *b, T (2)); }              \
+    WRAP void w_q_slerp_tm1##S (const Quat<T>* a, const Quat<T>* b, Quat<T>* r) { *r = slerp (*a, *b, T (-1)); }            \
     WRAP void w_q_slerp_shortest_t0##S (const Quat<T>* a, const Quat<T>* b, Quat<T>* r) { *r = slerpShortestArc (*a, *b, T (0)); } \
     WRAP void w_q_slerp_shortest_t1##S (const Quat<T>* a, const Quat<T>* b, Quat<T>* r) { *r = slerpShortestArc (*a, *b, T (1)); } \
     WRAP void w_rotation_matrix##S (const Vec3<T>* from, const Vec3<T>* to, Matrix44<T>* m) { *m = rotationMatrix (*from, *to); }
